@@ -18,10 +18,19 @@ What one execution (`record`) covers besides the triple itself (gap audit, DESIG
     complete passes, lock-step consumption with a `tscale()` pass and a second live object in between, `nwin` read again
     at the end, amplitude vectors overwritten by the caller once read;
   * the numbers of the repository's call sites (65536 / 1024, 60000 / 576, 60000 / 0);
-  * a generator that does not stop or hands out nothing is a failed call (`Raised`), not a hanging harness.
+  * a generator that does not stop or hands out nothing is a failed call (`Raised`), not a hanging harness; so is a call that
+    does not return at all (`_Watch`: WATCH_S seconds per execution, the run stops executing triples after three of them).
+Robustness (what the code hands out is decoded defensively, so that a surprise becomes the verdict of its clause, not exit 2):
+  `_count` (nwin that is no integer announces -1: CountPositive), `_clamp` (integers beyond what any admissible triple produces are
+  recorded at a bound outside the signal: TLC reads 32 bit), `_real` / `_entries` / `_c2` (time scale entries and amplitudes that
+  are not real numbers, a time scale that is not one-dimensional: Centre / Splice), `_slice_win` (a slice with a step), `wild`
+  (windows of `firstlast` outside the signal: the generators that allocate per window are not run, InRange is false anyway).
 """
 import copy
 import random
+from itertools import islice
+import signal
+import threading
 
 import numpy as np
 import scipy.signal
@@ -29,10 +38,47 @@ import scipy.signal
 from vkit import apalache, tlc, tracecheck
 
 
+BIG = 10 ** 8           # beyond every length, index and doubled centre of the admissible triples (ns <= 1e7); TLC integers are 32 bit
+
+
+def _real(v):
+    """an element handed out by the code as a real number (NaN when it is none: no clause holds of NaN)"""
+    if isinstance(v, (bool, int, float, np.bool_, np.integer, np.floating)):
+        return float(v)
+    if isinstance(v, (complex, np.complexfloating)):
+        return float(v.real) if v.imag == 0 else float("nan")
+    if isinstance(v, np.ndarray) and v.ndim == 0:
+        return _real(v[()])
+    return float("nan")
+
+
+def _clamp(v, lo=-BIG, hi=BIG):
+    """an observed integer as TLC can read it: what lies beyond [lo, hi] is moved to the bound (it stays out of range, unequal to
+    everything admissible, and the arithmetic of the clauses cannot overflow)"""
+    return max(lo, min(hi, int(v)))
+
+
+def _count(x):
+    """the announced number of windows: an integer (or a float / 0-d array holding one); anything else announces nothing (-1)"""
+    if isinstance(x, np.ndarray) and x.ndim == 0:
+        x = x[()]
+    if isinstance(x, (int, np.integer)) and not isinstance(x, (bool, np.bool_)):
+        return _clamp(x)
+    if isinstance(x, (float, np.floating)) and np.isfinite(x) and float(x).is_integer():
+        return _clamp(x)
+    return -1
+
+
 def _rle(amp, w):
     """symbolic run-length code of an amplitude vector: 1.0 -> one, w[i] -> ("w", i)"""
     lut = {float(v): i for i, v in enumerate(w)}
     sym = []
+    try:
+        kind = np.asarray(amp).dtype.kind
+    except Exception:
+        kind = "O"
+    if kind not in "biuf":               # text, None, complex numbers off the real axis: no amplitudes (NaN -> "other")
+        amp = [_real(v) for v in amp]
     for v in amp:
         v = float(v)
         if v == 1.0:
@@ -64,7 +110,7 @@ def _rle(amp, w):
 
 
 # ---- hand-over forms (audit 9.7): how the three numbers, the sampling rate and the signal reach the object ----
-NFORMS = 8
+NFORMS = 9
 FS = [1, 2, 0.5, 30000, 2500.0, np.float64(1000.0), np.int16(30000), np.uint16(40000), np.int8(100), np.int32(30000)]      # narrow NumPy integers: nothing may be computed in the type of the rate
 SA_LIM = 300000        # slice_array is exercised on a real signal up to this length
 
@@ -89,16 +135,33 @@ def construct(ns, w, ov, form=0):
         if max(ns, w, ov) < np.iinfo(ut).max:
             return WindowGenerator(ut(ns), ut(w), ut(ov))
         return WindowGenerator(np.uint64(ns), np.uint64(w), np.uint64(ov))
+    if form == 8:
+        # lengths that come out of float arithmetic and are not whole (0.29 * 100 = 28.999999999999996, 2 * 30000.6): the object
+        # works with their integer parts - every output, the announced count included, must speak of the same (ns, w, ov)
+        return WindowGenerator(ns, float(np.nextafter(w + 1.0, 0.0)), ov + 0.5)
     return WindowGenerator(ns, w, ov)
 
 
 def _c2(tsk, fs):
     """twice the centre in samples from one entry of the time scale (-99: not a half-integer number of samples)"""
+    tsk = _real(tsk)                    # an entry that is not a real number is no centre
+    if not np.isfinite(tsk):
+        return -99
     if fs == 1 and type(fs) is int:
-        return int(round(2 * float(tsk))) if float(2 * tsk).is_integer() else -99
-    x = 2.0 * float(tsk) * float(fs)
+        return _clamp(round(2 * tsk)) if float(2 * tsk).is_integer() else -99
+    x = 2.0 * tsk * float(fs)
+    if not np.isfinite(x):
+        return -99
     r = round(x)
-    return int(r) if abs(x - r) <= 1e-9 * max(1.0, abs(x)) else -99
+    return _clamp(r) if abs(x - r) <= 1e-9 * max(1.0, abs(x)) else -99
+
+
+def _entries(ts):
+    """the time scale as a list of entries: one per window along ONE axis; anything else has no entry for any window"""
+    try:
+        return list(ts) if np.ndim(ts) == 1 else []
+    except Exception:
+        return []
 
 
 def _signal(ns, kind):
@@ -144,6 +207,13 @@ def _use(ns, f, l):
     return (int(f), int(l))
 
 
+def _slice_win(ns, s):
+    """the window a slice stands for; a slice that takes every n-th sample only stands for none"""
+    if s.step not in (None, 1):
+        return (-1, -1)
+    return _use(ns, s.start, s.stop)
+
+
 class DoesNotStop(Exception):
     pass
 
@@ -161,6 +231,38 @@ def _bounded(gen, n):
         yield x
 
 
+def _len1(a):
+    """length of an amplitude vector; -1 when it is not a vector (one amplitude per sample of the window)"""
+    return len(a) if np.ndim(a) == 1 else -1
+
+
+WATCH_S = 45            # one execution takes milliseconds (a second for the longest signals)
+HANGS = [0]             # executions stopped by the watchdog in this process
+
+
+class _Watch:
+    """a call that neither returns nor hands out anything (a loop that spins without yielding, inside tscale(), a constructor)
+    cannot be bounded by counting: the execution is interrupted after WATCH_S seconds and is a failed call (`DoesNotStop`)"""
+
+    def __enter__(self):
+        self.on = threading.current_thread() is threading.main_thread()
+        if self.on:
+            self.old = signal.signal(signal.SIGALRM, self._fire)
+            signal.setitimer(signal.ITIMER_REAL, WATCH_S)
+        return self
+
+    @staticmethod
+    def _fire(signum, frame):
+        HANGS[0] += 1
+        raise DoesNotStop(f"no answer within {WATCH_S} s")
+
+    def __exit__(self, *a):
+        if self.on:
+            signal.setitimer(signal.ITIMER_REAL, 0)
+            signal.signal(signal.SIGALRM, self.old)
+        return False
+
+
 def _spl_items(gen, ramp, obj=None, collect=False):
     """firstlast_splicing consumed window by window: the amplitude vector is read, then overwritten by the caller (it is the
     caller's array: `amp *= gain` must not reach the vectors handed out later)"""
@@ -169,9 +271,9 @@ def _spl_items(gen, ramp, obj=None, collect=False):
         # the other legitimate consumer (seed round g: one buffer reused for every window): all windows are collected first -
         # list(wg.firstlast_splicing), windows handed to workers, a second pass - and the amplitudes are read afterwards
         items = [(f, l, a, int(obj.iw) if obj is not None else -1) for f, l, a in gen]
-        return [(int(f), int(l), _rle(a, ramp), len(a), iw) for f, l, a, iw in items]
+        return [(int(f), int(l), _rle(a, ramp), _len1(a), iw) for f, l, a, iw in items]
     for f, l, a in gen:
-        out.append((int(f), int(l), _rle(a, ramp), len(a), int(obj.iw) if obj is not None else -1))
+        out.append((int(f), int(l), _rle(a, ramp), _len1(a), int(obj.iw) if obj is not None else -1))
         try:
             a[:] = -3.0
         except ValueError:
@@ -182,153 +284,185 @@ def _spl_items(gen, ramp, obj=None, collect=False):
 def record(ns, w, ov):
     """one execution of the real object -> one trace record"""
     rec = {"ns": ns, "w": w, "ov": ov, "nwin": 0, "wins": [], "exc": "", "nslices": 0, "src": "firstlast"}
+    try:        # the property says these calls succeed for every admissible triple
+        with _Watch():
+            _execute(rec, ns, w, ov)
+    except (Exception, SystemExit) as e:
+        rec["exc"] = type(e).__name__
+        rec["wins"] = []
+    return rec
+
+
+def _execute(rec, ns, w, ov):
+    """the calls of one execution and the decoding of what they hand out; whatever escapes is the record's `Raised` verdict"""
     form = (ns + 3 * w + 5 * ov) % NFORMS
     ifs = (2 * ns + w + 3 * ov) % len(FS)
     fs = FS[ifs]
     tscale = (lambda o: o.tscale(fs=fs)) if ifs % 2 == 0 else (lambda o: o.tscale(fs))
     cap = ns // (w - ov) + 3
-    try:
-        wg = construct(ns, w, ov, form)
-        rec["nwin"] = int(wg.nwin)
-        # every other triple uses ONE object for all its generators, and iterates `firstlast` twice (a generator that
-        # keeps state between uses shows up as different windows the second time); the others use fresh objects
-        same = (ns + w + ov) % 2 == 0
-        # one triple in four: the generators of ONE object are consumed in lock-step (zip-like use), with a complete tscale()
-        # pass while they are all suspended: the generators of an object must not share position state
-        interleaved = (ns + w + ov) % 4 == 2
-        ramp = scipy.signal.windows.hann((ov + 1) * 2 + 1, sym=True)[1:ov + 1]
-        sig, asig, sakw, axis = _signal(ns, (ns + 2 * w + ov) % 6) if ns <= SA_LIM else (None, None, {}, 0)
-        if same:
-            # histories of the object: generators started and abandoned after 0, 1 or 2 windows (a loop left with `break`),
-            # and a use that is declined (odd overlap: firstlast_valid asserts) - the object must serve the next use as if fresh
-            for j, name in enumerate(("firstlast", "firstlast_splicing", "slice", "firstlast_valid")):
-                g = iter(getattr(wg, name))
-                try:
-                    for _ in range((ns + w + j) % 3):
-                        next(g)
-                except (StopIteration, AssertionError):
-                    pass
-                if j % 2:
-                    g.close()
-                del g
-        if interleaved:
-            # a second object with other numbers is alive and consumed in the same rounds: objects share nothing
-            from ibldsp.utils import WindowGenerator
-            decoy = WindowGenerator(ns + 5, w + 2, min(ov + 1, w))
-            for _ in _bounded(wg.firstlast, cap):      # tscale() below runs unguarded inside the code: make sure the loop stops
+    wg = construct(ns, w, ov, form)
+    rec["nwin"] = _count(wg.nwin)
+    # the windows of a fresh object first: when one of them leaves the signal (`InRange` is false on `firstlast` itself), the
+    # execution is recorded up to that window only, and the generators that allocate amplitude vectors and chunks of the size
+    # of each window are stopped before it (a window of 2^31 samples would take the machine's memory, not raise)
+    probe = [(a, b) for a, b in _bounded(construct(ns, w, ov, form).firstlast, cap)]
+    nsafe = next((i for i, (a, b) in enumerate(probe) if not 0 <= a < b <= ns), None)
+    wild = nsafe is not None
+    # every other triple uses ONE object for all its generators, and iterates `firstlast` twice (a generator that
+    # keeps state between uses shows up as different windows the second time); the others use fresh objects
+    same = (ns + w + ov) % 2 == 0
+    # one triple in four: the generators of ONE object are consumed in lock-step (zip-like use), with a complete tscale()
+    # pass while they are all suspended: the generators of an object must not share position state
+    interleaved = (ns + w + ov) % 4 == 2
+    ramp = scipy.signal.windows.hann((ov + 1) * 2 + 1, sym=True)[1:ov + 1]
+    sig, asig, sakw, axis = _signal(ns, (ns + 2 * w + ov) % 6) if ns <= SA_LIM else (None, None, {}, 0)
+    if same and not wild:
+        # histories of the object: generators started and abandoned after 0, 1 or 2 windows (a loop left with `break`),
+        # and a use that is declined (odd overlap: firstlast_valid asserts) - the object must serve the next use as if fresh
+        for j, name in enumerate(("firstlast", "firstlast_splicing", "slice", "firstlast_valid")):
+            g = iter(getattr(wg, name))
+            try:
+                for _ in range((ns + w + j) % 3):
+                    next(g)
+            except (StopIteration, AssertionError):
                 pass
-            dits = [iter(decoy.firstlast), iter(decoy.firstlast_splicing)]
-            its = {"fl": _bounded(wg.firstlast, cap), "val": _bounded(wg.firstlast_valid, cap) if ov % 2 == 0 else None,
-                   "spl": _bounded(wg.firstlast_splicing, cap), "sl": _bounded(wg.slice, cap),
-                   "sa": _bounded(wg.slice_array(sig, **sakw), cap) if sig is not None else None}
-            got = {"fl": [], "val": [], "spl": [], "sl": [], "sa": []}
-            ts, k = None, 0
-            while True:
-                progressed = False
-                for name in ("fl", "val", "spl", "sl", "sa"):
-                    if its[name] is None:
-                        continue
-                    try:
-                        item = next(its[name])
-                    except StopIteration:
-                        its[name] = None
-                        continue
-                    if name == "spl":           # read now, then the caller overwrites its array
-                        f, l, a = item
-                        item = (int(f), int(l), _rle(a, ramp), len(a))
-                        try:
-                            a[:] = -3.0
-                        except ValueError:
-                            pass
-                    elif name == "sa":
-                        item = _decode_chunk(item, asig, axis)
-                    got[name].append(item)
-                    progressed = True
-                for d in dits:
-                    next(d, None)
-                if k == 0:
-                    ts = tscale(wg)
-                k += 1
-                if not progressed or k > 4 * (ns + 2):
-                    break
-            fl = [_use(ns, a, b) + (i,) for i, (a, b) in enumerate(got["fl"])]   # iw is shared by design: not observed here
-            val = ([tuple(int(x) for x in v) for v in got["val"]] if ov % 2 == 0 else [(f, l, -1, -1) for f, l, _ in fl])
-            spl = got["spl"]
-            sl = got["sl"]
-            for s in sl:
-                range(ns)[s]                     # a slice is used as an index
-            streams = [("firstlast_valid", [(v[0], v[1], i) for i, v in enumerate(val)]),
-                       ("firstlast_splicing", [(s[0], s[1], i) for i, s in enumerate(spl)]),
-                       ("slice", [_use(ns, s.start, s.stop) + (i,) for i, s in enumerate(sl)])]
-            if sig is not None:
-                streams.append(("slice_array", [(a, b, i) for i, (a, b) in enumerate(got["sa"])]))
+            if j % 2:
+                g.close()
+            del g
+    if wild:
+        fl = [_use(ns, a, b) + (int(wg.iw),) for a, b in islice(_bounded(wg.firstlast, cap), nsafe + 1)]
+        if ov % 2 == 0:
+            val = [tuple(int(x) for x in v) for v in islice(_bounded(construct(ns, w, ov, form).firstlast_valid, cap), nsafe + 1)]
         else:
-            new = (lambda: wg) if same else (lambda: construct(ns, w, ov, form))
-            if same:
-                first_pass = [(int(a), int(b)) for a, b in _bounded(wg.firstlast, cap)]
-            fl = []
-            for first, last in _bounded(wg.firstlast, cap):
-                fl.append(_use(ns, first, last) + (int(wg.iw),))
-            if same and first_pass != [(a, b) for a, b, _ in fl]:
-                fl = [(-1, -1, -1)] * len(fl)          # the second iteration differs from the first: windows are not reproducible
-            # the counter `iw` is public (the repository's tests index their results with it inside loops over firstlast, slice
-            # and slice_array): it is observed in every kind of loop
-            o = new()
-            if ov % 2 == 0:
-                val, viw = [], []
-                for v in _bounded(o.firstlast_valid, cap):
-                    val.append(tuple(int(x) for x in v))
-                    viw.append(int(o.iw))
-            else:
-                val, viw = [(f, l, -1, -1) for f, l, _ in fl], [i for _, _, i in fl]
-            o = new()
-            spl = _spl_items(_bounded(o.firstlast_splicing, cap), ramp, o, collect=(ns + 2 * w + ov) % 3 == 0)
-            ts = tscale(new())
-            o = new()
-            sl, sliw = [], []
-            for s in _bounded(o.slice, cap):
-                range(ns)[s]
-                sl.append(s)
-                sliw.append(int(o.iw))
-            streams = [("firstlast_valid", [(v[0], v[1], i) for v, i in zip(val, viw)]),
-                       ("firstlast_splicing", [(s[0], s[1], s[4]) for s in spl]),
-                       ("slice", [_use(ns, s.start, s.stop) + (i,) for s, i in zip(sl, sliw)])]
-            if sig is not None:
-                o = new()
-                sa = []
-                for chunk in _bounded(o.slice_array(sig, **sakw), cap):
-                    sa.append(_decode_chunk(chunk, asig, axis) + (int(o.iw),))
-                streams.append(("slice_array", sa))
-        # every generator of the object hands out "the windows": the property layer judges the first stream that differs from
-        # `firstlast` in place of it (same clauses: in range, cover, overlap, count; the other observations are attached by
-        # window bounds and position as before, so a stream that is not the one they belong to fails their clauses as well)
-        for name, st in streams:
-            if st != list(fl):
-                fl, rec["src"] = st, name
+            val = [(f, l, -1, -1) for f, l, _ in fl]
+        spl = _spl_items(islice(_bounded(construct(ns, w, ov, form).firstlast_splicing, cap), nsafe), ramp)
+        ts = _entries(tscale(construct(ns, w, ov, form)))[:nsafe + 1]
+        sl = list(islice(_bounded(construct(ns, w, ov, form).slice, cap), nsafe + 1))
+        for s in sl:
+            range(ns)[s]
+        streams = []
+    elif interleaved:
+        # a second object with other numbers is alive and consumed in the same rounds: objects share nothing
+        from ibldsp.utils import WindowGenerator
+        decoy = WindowGenerator(ns + 5, w + 2, min(ov + 1, w))
+        for _ in _bounded(wg.firstlast, cap):      # tscale() below runs unguarded inside the code: make sure the loop stops
+            pass
+        dwin = [(a, b) for a, b in _bounded(decoy.firstlast, cap + 8)]
+        dits = [iter(decoy.firstlast)]
+        if all(0 <= a < b <= ns + 5 for a, b in dwin):      # as for `wild`: no amplitude vectors for windows that leave the signal
+            dits.append(iter(decoy.firstlast_splicing))
+        its = {"fl": _bounded(wg.firstlast, cap), "val": _bounded(wg.firstlast_valid, cap) if ov % 2 == 0 else None,
+               "spl": _bounded(wg.firstlast_splicing, cap), "sl": _bounded(wg.slice, cap),
+               "sa": _bounded(wg.slice_array(sig, **sakw), cap) if sig is not None else None}
+        got = {"fl": [], "val": [], "spl": [], "sl": [], "sa": []}
+        ts, k = None, 0
+        while True:
+            progressed = False
+            for name in ("fl", "val", "spl", "sl", "sa"):
+                if its[name] is None:
+                    continue
+                try:
+                    item = next(its[name])
+                except StopIteration:
+                    its[name] = None
+                    continue
+                if name == "spl":           # read now, then the caller overwrites its array
+                    f, l, a = item
+                    item = (int(f), int(l), _rle(a, ramp), _len1(a))
+                    try:
+                        a[:] = -3.0
+                    except ValueError:
+                        pass
+                elif name == "sa":
+                    item = _decode_chunk(item, asig, axis)
+                got[name].append(item)
+                progressed = True
+            for d in dits:
+                next(d, None)
+            if k == 0:
+                ts = tscale(wg)
+            k += 1
+            if not progressed or k > 4 * (ns + 2):
                 break
-        if not fl:
-            raise NoWindow(f"{rec['src']} produced no window")
-        nw_late = int(wg.nwin)                  # the announced count is an attribute: read again after all the iterations
-        if nw_late != len(fl):
-            rec["nwin"] = nw_late
-        rec["nslices"] = len(sl)
-        for k, (f, l, iw) in enumerate(fl):
-            fv, lv = (-99, -99)
-            if k < len(val) and val[k][:2] == (f, l):
-                fv, lv = val[k][2:]
+        fl = [_use(ns, a, b) + (i,) for i, (a, b) in enumerate(got["fl"])]   # iw is shared by design: not observed here
+        val = ([tuple(int(x) for x in v) for v in got["val"]] if ov % 2 == 0 else [(f, l, -1, -1) for f, l, _ in fl])
+        spl = got["spl"]
+        sl = got["sl"]
+        for s in sl:
+            range(ns)[s]                     # a slice is used as an index
+        streams = [("firstlast_valid", [(v[0], v[1], i) for i, v in enumerate(val)]),
+                   ("firstlast_splicing", [(s[0], s[1], i) for i, s in enumerate(spl)]),
+                   ("slice", [_slice_win(ns, s) + (i,) for i, s in enumerate(sl)])]
+        if sig is not None:
+            streams.append(("slice_array", [(a, b, i) for i, (a, b) in enumerate(got["sa"])]))
+    else:
+        new = (lambda: wg) if same else (lambda: construct(ns, w, ov, form))
+        if same:
+            first_pass = [(int(a), int(b)) for a, b in _bounded(wg.firstlast, cap)]
+        fl = []
+        for first, last in _bounded(wg.firstlast, cap):
+            fl.append(_use(ns, first, last) + (int(wg.iw),))
+        if same and first_pass != [(a, b) for a, b, _ in fl]:
+            fl = [(-1, -1, -1)] * len(fl)          # the second iteration differs from the first: windows are not reproducible
+        # the counter `iw` is public (the repository's tests index their results with it inside loops over firstlast, slice
+        # and slice_array): it is observed in every kind of loop
+        o = new()
+        if ov % 2 == 0:
+            val, viw = [], []
+            for v in _bounded(o.firstlast_valid, cap):
+                val.append(tuple(int(x) for x in v))
+                viw.append(int(o.iw))
+        else:
+            val, viw = [(f, l, -1, -1) for f, l, _ in fl], [i for _, _, i in fl]
+        o = new()
+        spl = _spl_items(_bounded(o.firstlast_splicing, cap), ramp, o, collect=(ns + 2 * w + ov) % 3 == 0)
+        ts = tscale(new())
+        o = new()
+        sl, sliw = [], []
+        for s in _bounded(o.slice, cap):
+            range(ns)[s]
+            sl.append(s)
+            sliw.append(int(o.iw))
+        streams = [("firstlast_valid", [(v[0], v[1], i) for v, i in zip(val, viw)]),
+                   ("firstlast_splicing", [(s[0], s[1], s[4]) for s in spl]),
+                   ("slice", [_slice_win(ns, s) + (i,) for s, i in zip(sl, sliw)])]
+        if sig is not None:
+            o = new()
+            sa = []
+            for chunk in _bounded(o.slice_array(sig, **sakw), cap):
+                sa.append(_decode_chunk(chunk, asig, axis) + (int(o.iw),))
+            streams.append(("slice_array", sa))
+    # every generator of the object hands out "the windows": the property layer judges the first stream that differs from
+    # `firstlast` in place of it (same clauses: in range, cover, overlap, count; the other observations are attached by
+    # window bounds and position as before, so a stream that is not the one they belong to fails their clauses as well)
+    for name, st in streams:
+        if st != list(fl):
+            fl, rec["src"] = st, name
+            break
+    if not fl:
+        raise NoWindow(f"{rec['src']} produced no window")
+    nw_late = _count(wg.nwin)               # the announced count is an attribute: read again after all the iterations
+    if nw_late != len(fl):
+        rec["nwin"] = nw_late
+    rec["nslices"] = len(sl)
+    ts = _entries(ts)
+    lo, hi = -(w + 100), ns + w + 100       # bounds farther out than this are recorded as this far out (see _clamp)
+    for k, (f, l, iw) in enumerate(fl):
+        fv, lv = (-99, -99)
+        if k < len(val) and val[k][:2] == (f, l):
+            fv, lv = val[k][2:]
+        segs = [["other", 0, l - f]]
+        if k < len(spl) and spl[k][:2] == (f, l) and spl[k][3] == l - f:
+            segs = spl[k][2]
+        c2 = _c2(ts[k], fs) if k < len(ts) else -99
+        if k == len(fl) - 1 and len(ts) != len(fl):
+            c2 = -99                         # the time scale has one entry per window
+        if k < len(sl) and (sl[k].start, sl[k].stop) != (f, l):
+            rec["nslices"] = -1
+        f, l, fv, lv = (_clamp(x, lo, hi) for x in (f, l, fv, lv))
+        if segs[0][0] == "other" and len(segs) == 1:
             segs = [["other", 0, l - f]]
-            if k < len(spl) and spl[k][:2] == (f, l) and spl[k][3] == l - f:
-                segs = spl[k][2]
-            c2 = _c2(ts[k], fs) if k < len(ts) else -99
-            if k == len(fl) - 1 and len(ts) != len(fl):
-                c2 = -99                         # the time scale has one entry per window
-            if k < len(sl) and (sl[k].start, sl[k].stop) != (f, l):
-                rec["nslices"] = -1
-            rec["wins"].append([f, l, iw, fv, lv, c2, segs])
-    except Exception as e:  # the property says these calls succeed for every admissible triple
-        rec["exc"] = type(e).__name__
-        rec["wins"] = []
-    return rec
+        rec["wins"].append([f, l, _clamp(iw), fv, lv, c2, segs])
 
 
 def triples(ctx):
@@ -399,7 +533,14 @@ def run(ctx):
     # 2. code -> spec
     tr = triples(ctx)
     random.Random(ctx.seed).shuffle(tr)     # balance the batches
-    trs = [record(*t) for t in tr]
+    trs = []
+    for t in tr:
+        trs.append(record(*t))
+        if HANGS[0] >= 3:
+            # three executions were stopped by the watchdog after WATCH_S seconds each (they are `Raised:DoesNotStop` below):
+            # the remaining triples would only add waiting time to a run that has its verdict
+            ctx.log(f"[C17] {HANGS[0]} executions did not return; {len(tr) - len(trs)} triples not executed")
+            break
     for t in trs:
         nontrivial = len(t["wins"]) > 1
         ctx.count(1, key=(t["ns"], t["w"], t["ov"]) if nontrivial else None)
